@@ -27,6 +27,7 @@ import (
 	"github.com/emersion/go-sasl"
 	"github.com/foxcpp/maddy/framework/config"
 	modconfig "github.com/foxcpp/maddy/framework/config/module"
+	"github.com/foxcpp/maddy/framework/exterrors"
 	"github.com/foxcpp/maddy/framework/log"
 	"github.com/foxcpp/maddy/framework/module"
 	"github.com/foxcpp/maddy/internal/auth/sasllogin"
@@ -146,7 +147,7 @@ func (s *SASLAuth) CreateSASL(mech string, remoteAddr net.Addr, successCb func(i
 			err := s.AuthPlain(username, password)
 			if err != nil {
 				s.Log.Error("authentication failed", err, "username", username, "src_ip", remoteAddr)
-				return ErrInvalidAuthCred
+				return authFailure(err)
 			}
 
 			return successCb(identity, ContextData{
@@ -165,7 +166,7 @@ func (s *SASLAuth) CreateSASL(mech string, remoteAddr net.Addr, successCb func(i
 			err := s.AuthPlain(username, password)
 			if err != nil {
 				s.Log.Error("authentication failed", err, "username", username, "src_ip", remoteAddr)
-				return ErrInvalidAuthCred
+				return authFailure(err)
 			}
 
 			return successCb(username, ContextData{
@@ -175,6 +176,16 @@ func (s *SASLAuth) CreateSASL(mech string, remoteAddr net.Addr, successCb func(i
 		})
 	}
 	return FailingSASLServ{Err: ErrUnsupportedMech}
+}
+
+// authFailure returns the error reported to the client for the provider error
+// err. The reason is not disclosed, whether the failure is a temporary one (the
+// provider is not available) is preserved.
+func authFailure(err error) error {
+	if exterrors.IsTemporary(err) {
+		return exterrors.WithTemporary(ErrInvalidAuthCred, true)
+	}
+	return ErrInvalidAuthCred
 }
 
 // AddProvider adds the SASL authentication provider to its mapping by parsing
